@@ -227,7 +227,7 @@ def run(chk, replay=None):
     # 3. code -> spec
     rng = random.Random(chk.seed)
     wide = [17, 24, 31, 32, 33, 40, 48, 63, 64, 65, 72] if chk.quick else list(range(17, 73))
-    events = gen_events(conv, rng, 1500 if chk.quick else 80000, wide)
+    events = gen_events(conv, rng, 1500 if chk.quick else 200000, wide)
     vs, st = tlc.judge_traces("Trace_Bits", "Trace_Bits.cfg", events, name="c10tr")
     ev.judged("Trace_Bits", st, len(events))
     for e in events:
